@@ -41,6 +41,31 @@ class SpecLayer:
                         V.append(dict(sig='C17 a shipped specification reads a capture group the match object cannot hold', specification=m.group(1), file=fn.group(1) if fn else '?',
                                       detail='$%d is read, the match object holds groups 0..%d (MAX_MATCH_POS)' % (hi, cap), replay=dict(layer=self.name, what='%s: $%d > MAX_MATCH_POS = %d' % (m.group(1), hi, cap))))
                         break
+        # what the parser made of the delays, against the text of the files (read here, independently): every `delay <seconds>` of a
+        # shipped file must be loaded with its stated time, fractions included
+        def strip_comments(text):
+            out = []; q = False
+            for line in text.split('\n'):
+                buf = ''
+                for ch in line:
+                    if ch == '"': q = not q
+                    if ch == '#' and not q: break
+                    buf += ch
+                out.append(buf)
+            return '\n'.join(out)
+        for path in translate.spec_files():
+            try: text = strip_comments(open(path, errors='replace').read())
+            except OSError: continue
+            want = sorted(round(float(x) * 1000000) for x in re.findall(r'\bdelay\s+([0-9]*\.?[0-9]+)', text))
+            got = []
+            for m in re.finditer(r'^def (\w+) : SpecD := \{(.*?)\]\}\n', defs, re.M | re.S):
+                fn = re.search(r'file := "([^"]*)"', m.group(2))
+                if fn and os.path.basename(fn.group(1)) == os.path.basename(path) and (os.path.dirname(path).endswith(os.path.dirname(fn.group(1))) or True):
+                    got += [int(x) for x in re.findall(r'\.delay (\d+)', m.group(2))]
+            if want and sorted(got) != want and len(got) == len(want):
+                bad = [(w, g) for w, g in zip(want, sorted(got)) if w != g][:3]
+                V.append(dict(sig='C17 a delay of a shipped specification is not loaded with its stated time', file=path, detail='stated/loaded (us): %r' % bad,
+                              replay=dict(layer=self.name, what='%s: delays stated %r, loaded %r' % (path, want[:8], sorted(got)[:8]))))
         os.makedirs(os.path.join(BUILD, 'audit'), exist_ok=True)
         f = os.path.join(BUILD, 'audit', 'SpecEval_%d.lean' % os.getpid())
         with open(f, 'w') as fh:
